@@ -7,12 +7,12 @@ payload = implutil.begin()
 
 from workload.graph import Graph  # noqa: E402
 
-ERR = [(ValueError, 1), (RuntimeError, 2), (KeyError, 3), (TypeError, 4)]
+# RecursionError is a RuntimeError: it is reported apart (the model never answers 5)
+ERR = [(RecursionError, 5), (ValueError, 1), (RuntimeError, 2), (KeyError, 3), (TypeError, 4), (IndexError, 6),
+       (AttributeError, 7), (StopIteration, 8)]
 
 
 def code(e):
-    if isinstance(e, RecursionError):
-        raise e
     for cls, c in ERR:
         if isinstance(e, cls):
             return c
@@ -34,12 +34,18 @@ def res(f, conv):
         return [1, code(e)]
 
 
+GEN_CAP = [100000]
+
+
 def gen(f):
-    """Observation of a generator: (items yielded, 0 | exception code)."""
+    """Observation of a generator: (items yielded, 0 | exception code); an iteration that yields more
+    than the cap (far beyond any terminating run on the generated graphs) is cut and reported as 9."""
     out = []
     try:
         for x in f():
             out.append(un(x))
+            if len(out) > GEN_CAP[0]:
+                return [out[:50], 9]
         return [out, 0]
     except Exception as e:  # noqa: BLE001
         return [out, code(e)]
@@ -54,6 +60,7 @@ def build(mapping):
 
 
 def observe(case):
+    GEN_CAP[0] = 50 * (len(case["map"]) + sum(len(cs) for _, cs in case["map"])) + max(case.get("fuel", 0), 100)
     try:
         g = build(case["map"])
     except Exception as e:  # noqa: BLE001
